@@ -122,6 +122,10 @@ class Check:
             sd = seed * 1000 + s
             specs.append({"name": f"gen-{sd}", "src": ["gen", {"seed": sd}], "policy": pols[s % 4], "seed": sd, "episodes": 2,
                           "steps": 40 if q else 96})
+        for s in range(12 if q else 48):  # wireless-router family
+            sd = seed * 1000 + 300 + s
+            specs.append({"name": f"gen-wlan-{sd}", "src": ["gen", {"seed": sd, "family": "wlan"}], "policy": (pols + ["nic", "scans"])[s % 6], "seed": sd, "episodes": 2,
+                          "steps": 40 if q else 96})
         # interfaces toggled by a defender that acts LAST, with traffic-related leaves observed: a NIC that carried traffic / captured
         # events earlier in the same step and is disabled at its end
         for s in range(24 if q else 96):
